@@ -358,7 +358,7 @@ package cl
 
 // ---------------------------------------------------------------------------
 // C14: sequence functions honour their keywords.
-//@ stable-struct cl.seqFunVars cl.dupInfo
+//@ stable-struct cl.seqFunVars cl.dupInfo cl.control
 
 // The keyword parser shared by find position count remove delete substitute
 // (and their -if forms): each field is set from the value that follows its own
@@ -508,6 +508,29 @@ package cl
 //@   ensures default-one: len(params) == 0 ==> repeats(12, old(c.out), c.out, 1)
 //@   ensures prefix-kept: forall j :: (0 <= j && j < old(len(c.out))) ==> c.out[j] == old(c.out[j])
 //@   loop 0<n: invariant written: len(c.out) >= old(len(c.out)) && (forall j :: (old(len(c.out)) <= j && j < len(c.out)) ==> c.out[j] == 12) && (forall j :: (0 <= j && j < old(len(c.out))) ==> c.out[j] == old(c.out[j])) && (len(params) == 0 ==> (n >= 0 && len(c.out) + n == old(len(c.out)) + 1))
+
+// ~S prints readably with escapes, ~A without; both consume one argument, pad
+// on the right (on the left with @) to at least mincol columns.
+//@ func cl.(*control).dirS
+//@   property C15
+//@   requires sane-position: abs(c.argPos) < 1000000000
+//@   on-call dirAS escapes-on: p.Escape && p.Readably
+//@   on-call dirAS same-modifiers: $arg0 == colon && $arg1 == at && $arg2 == params
+//@ func cl.(*control).dirA
+//@   property C15
+//@   requires sane-position: abs(c.argPos) < 1000000000
+//@   on-call dirAS escapes-off: !p.Escape && !p.Readably
+//@   on-call dirAS same-modifiers: $arg0 == colon && $arg1 == at && $arg2 == params
+//@ func cl.(*control).dirAS
+//@   property C15
+//@   requires sane-position: abs(c.argPos) < 1000000000
+//@   count-stores argPos
+//@   ensures consumes-one: old(c.argPos) >= 0 ==> $nstore_argPos == 1
+//@   on-store argPos next-argument: now == was + 1
+//@   on-store out#1 left-padding-first: at
+//@   on-store out#2 then-the-text: at
+//@   on-store out#3 text-first: !at
+//@   on-store out#4 then-right-padding: !at
 
 // ~* moves the argument pointer: forward by n (default 1), back by n with :,
 // to the absolute position n (default 0) with @; it writes nothing.
